@@ -370,8 +370,20 @@ func c01Messages(w *core.W, j int) {
 	for k := 0; k < 5; k++ {
 		g.Plain = k == 0
 		m := genMsg(g, ls, 6)
+		if j%40 == 7 && k == 4 {
+			// one record with (nearly) the largest RDATA a record can carry: the message is longer than
+			// 65535 octets, which the packer and the decoder handle like any other
+			big := model.Unknown([]uint16{10, 65280, 4711}[j/40%3])
+			if big.Type == 10 {
+				big = model.Layouts[10]
+			}
+			n := []int{65535, 65534, 65500, 65535 - 12}[j/120%4]
+			m = &model.Msg{ID: uint16(j), Bits: 0x8000, Q: []model.Question{{Name: model.Name{[]byte("big")}, Type: big.Type, Class: 1}}}
+			m.An = []*model.Rec{{Owner: model.Name{[]byte("big")}, Type: big.Type, Class: 1, TTL: 1, L: big, Vals: []any{bytes.Repeat([]byte{byte(j)}, n)}}}
+			w.Count("messages_with_maximal_rdata", 1)
+		}
 		wire := m.Wire()
-		if len(wire) > 65535 {
+		if len(wire) > 65535 && !(j%40 == 7 && k == 4) {
 			continue
 		}
 		w.Eval(1)
